@@ -40,7 +40,8 @@ def gen_opts(rng, plates):
         smap = list(range(ns)) + [90 + i for i in range(rng.choice([0, 1, 2]))]     # absent names -> gaps in the used sample ids
         rng.shuffle(smap)
     return {"interleave": rng.random() < 0.5, "long_names": rng.random() < 0.3, "perm_names": rng.randrange(1, 10 ** 6) if rng.random() < 0.5 else None,
-            "sample_map": smap, "np_ids": rng.random() < 0.4, "warm": rng.random() < 0.5, "obs_instalments": rng.random() < 0.5}
+            "sample_map": smap, "np_ids": rng.random() < 0.4, "warm": rng.random() < 0.5, "obs_instalments": rng.random() < 0.5,
+            "ties": ({"mode": rng.choice(TIE_MODES), "store": rng.choice(["first", "last", None])} if rng.random() < 0.25 else None)}
 
 
 def build_screen(plates, opts=None):
@@ -162,18 +163,47 @@ def make_policy(k, log):
     return Recording(k)
 
 
-def make_scores(desc, eligible, target):
-    """the target is the best ELIGIBLE plate; every non-eligible plate scores lower still"""
+TIE_MODES = ["all-equal", "signed-zero", "tie-target", "size"]
+
+
+def make_scores(desc, eligible, target, ties=None, screen=None, batch=()):
+    """default: the target is the best ELIGIBLE plate; every non-eligible plate scores lower still, all scores distinct.
+    ties (checklist item 22: EXACT ties between allowed and non-allowed plates), {"mode": ..., "store": "first" | "last" | None}:
+      all-equal   every plate scores 0.0
+      signed-zero allowed plates 0.0, non-allowed plates -0.0 (equal as numbers)
+      tie-target  the target and every non-allowed plate score 1.5, the other allowed plates more
+      size        the table the real score_chunk builds with the real SizeScorer (score = plate size: equal-size plates tie)
+    store: the non-allowed plates are stored first / last in the table (default: plate order)."""
     from batchie.scoring.main import ChunkedScoresHolder
-    h = ChunkedScoresHolder(size=len(desc))
+    mode = (ties or {}).get("mode")
+    if mode == "size" and screen is not None:
+        from batchie.scoring.main import score_chunk
+        from batchie.scoring.size import SizeScorer
+        return score_chunk(scorer=SizeScorer(), thetas=None, screen=screen, distance_matrix=None, rng=np.random.default_rng(0),
+                           batch_plate_ids=[int(x) for x in batch] or None)
+    rows = []
     for i, d in enumerate(desc):
         pid = d[0]
-        if pid == target:
+        if mode in ("all-equal", "size") or (mode == "tie-target" and target is None):
+            sc = 0.0
+        elif mode == "signed-zero":
+            sc = 0.0 if (pid in eligible or not eligible) else -0.0
+        elif mode == "tie-target":
+            sc = 1.5 if (pid == target or pid not in eligible) else 2.5 + i
+        elif pid == target:
             sc = 0.0
         elif pid in eligible:
             sc = 1.0 + i
         else:
             sc = -5.0 - i
+        rows.append((pid, sc))
+    store = (ties or {}).get("store")
+    if store in ("first", "last") and eligible:
+        non = [r for r in rows if r[0] not in eligible]
+        yes = [r for r in rows if r[0] in eligible]
+        rows = non + yes if store == "first" else yes + non
+    h = ChunkedScoresHolder(size=len(rows))
+    for pid, sc in rows:
         h.add_score(pid, sc)
     return h
 
@@ -181,6 +211,7 @@ def make_scores(desc, eligible, target):
 MUTATIONS = []
 CALLS = [0]
 LAST_RAW = [None]
+LAST_TABLE = [None]
 
 
 def check_mutations(res, case):
@@ -229,7 +260,7 @@ def install_cli_policy():
         mod.VerifRecKPerSample = VerifRecKPerSample
 
 
-def call_select_cli(screen, desc, k, batch, eligible_hint, target, cli):
+def call_select_cli(screen, desc, k, batch, eligible_hint, target, cli, ties=None):
     """class entry-point: the same call through `batchie.cli.select_next_plate.main()`: screen and scores are real files (the scores in
     two files), the batch goes in as --batch-plate-id, the policy as --policy/--policy-param, the answer comes back in the output file.
     Returns (eligible ids the POLICY computed from what it RECEIVED, error class, plate id in the output file | None)."""
@@ -243,11 +274,12 @@ def call_select_cli(screen, desc, k, batch, eligible_hint, target, cli):
     d = cli["dir"]
     data_fn, out_fn = os.path.join(d, "screen.h5"), os.path.join(d, "next.txt")
     screen.save_h5(data_fn)
-    full = make_scores(desc, set(eligible_hint), target)
-    half = max(1, len(desc) // 2)
+    full = make_scores(desc, set(eligible_hint), target, ties, screen, batch)
+    stored = [int(x) for x in full.plate_ids[:full.current_index]]      # the table's own storage order, split over two files
+    half = max(1, len(stored) // 2)
     files = []
     for part, sl in enumerate((slice(0, half), slice(half, None))):
-        ids_ = [dd[0] for dd in desc][sl]
+        ids_ = stored[sl]
         if not ids_:
             continue
         h = ChunkedScoresHolder(size=len(ids_))
@@ -285,13 +317,13 @@ def call_select_cli(screen, desc, k, batch, eligible_hint, target, cli):
     return el, None, (None if ret is None or ret < 0 else ret)
 
 
-def call_select(screen, desc, k, batch, eligible_hint=(), target=None, shared=None, np_ids=False, cli=None):
+def call_select(screen, desc, k, batch, eligible_hint=(), target=None, shared=None, np_ids=False, cli=None, ties=None):
     if cli is not None:
-        return call_select_cli(screen, desc, k, batch, eligible_hint, target, cli)
-    return _call_select(screen, desc, k, batch, eligible_hint, target, shared, np_ids)
+        return call_select_cli(screen, desc, k, batch, eligible_hint, target, cli, ties)
+    return _call_select(screen, desc, k, batch, eligible_hint, target, shared, np_ids, ties)
 
 
-def _call_select(screen, desc, k, batch, eligible_hint=(), target=None, shared=None, np_ids=False):
+def _call_select(screen, desc, k, batch, eligible_hint=(), target=None, shared=None, np_ids=False, ties=None):
     """real select_next_plate; returns (eligible ids | None, error class | None, returned plate id | None).
     `shared` = (policy, log): ONE policy object used for every call of a history (and of its later rounds); default a new one per call."""
     from batchie.scoring.main import select_next_plate
@@ -301,7 +333,9 @@ def _call_select(screen, desc, k, batch, eligible_hint=(), target=None, shared=N
     else:
         log = []
         pol = make_policy(k, log)
-    scores = make_scores(desc, set(eligible_hint), target)
+    scores = make_scores(desc, set(eligible_hint), target, ties, screen, batch)
+    # the table in storage order with the scores as integers (every score the harness makes is a multiple of 0.5; -0.0 = 0.0 = 0)
+    LAST_TABLE[0] = [(int(scores.plate_ids[i]), int(round(float(scores.scores[i]) * 2))) for i in range(scores.current_index)]
     ids = [np.int64(x) for x in batch] if np_ids else list(batch)
     LAST_RAW[0] = None
     if CALLS[0] % 4 == 1:          # the "-1 = no plate" placeholders of earlier select_next_plate outputs fed back in as batch ids
@@ -533,7 +567,8 @@ def _run_history(ctx, res, plates, k, strat, rng, lines, expect, meta, max_len=4
         case = {"kind": "history", "plates": plates, "k": k, "picks": [], "prior": [list(b) for b in done], "reuse": reuse, "opts": opts}
         stop = False
         while len(batch) <= max_len:
-            el, err, ret0 = call_select(screen, desc, k, batch, shared=shared, np_ids=npi, cli=cli)
+            ties = opts.get("ties")
+            el, err, ret0 = call_select(screen, desc, k, batch, shared=shared, np_ids=npi, cli=cli, ties=ties)
             states += 1
             res.evaluations += 1
             c = dict(case, picks=list(batch))
@@ -572,14 +607,32 @@ def _run_history(ctx, res, plates, k, strat, rng, lines, expect, meta, max_len=4
             if forced is not None:
                 if len(batch) >= len(forced):
                     break
-                if forced[len(batch)] not in el:
+                if forced[len(batch)] not in el and not opts.get("ties"):
                     stop = True
                     break
                 target = forced[len(batch)]
             else:
                 target = pick(rng, strat, desc, batch, el)
-            el2, err2, ret = call_select(screen, desc, k, batch, eligible_hint=el, target=target, shared=shared, np_ids=npi, cli=cli)
-            if ret != target:       # which allowed plate wins is the scores' business (C06): tie, and this history cannot go on as planned
+            el2, err2, ret = call_select(screen, desc, k, batch, eligible_hint=el, target=target, shared=shared, np_ids=npi, cli=cli, ties=ties)
+            if lines is not None and cli is None and err2 is None and el2 is not None and LAST_TABLE[0] is not None:
+                # the model's argmin over the ALLOWED plates (first minimal in storage order) against the plate that came back
+                lines.append("argmin %s %s" % (";".join("%d:%d" % e for e in LAST_TABLE[0]) or "-", ids_tok(el2)))
+                expect.append("none" if ret is None else str(ret))
+                meta.append(dict(c, kind="argmin"))
+            if ties:
+                # EXACT ties between allowed and non-allowed plates: whichever plate comes back must be one the policy allowed
+                # (which of the tied allowed plates is C06's business); the history goes on with the plate that came back
+                if err2 is not None or ret is None or ret not in (el2 if el2 is not None else el):
+                    if err2 is not None and str(err2).startswith("harness:"):
+                        res.disagree("C16:harness-exception", {"case": dict(c, target=target)}, err2, "no exception in harness code")
+                    else:
+                        res.fail("select_next_plate returned a plate that is not eligible", dict(c, target=target, state={"batch": list(batch), "eligible": el}),
+                                 ret if err2 is None else err2, el, signature="C16:returned")
+                    stop = True
+                    break
+                res.count("class.score-ties")
+                target = ret
+            elif ret != target:       # which allowed plate wins is the scores' business (C06): tie, and this history cannot go on as planned
                 res.disagree("C16:best-eligible", {"case": dict(c, target=target)}, ret, target)
                 stop = True
                 break
@@ -705,6 +758,25 @@ def run(ctx, res):
         opts.update(cli=True, verbose=(t % 3 == 0), np_ids=False)
         strat = ["lowest", "switch", "random", "lowest", "highest"][t % 5]     # "lowest": plate id 0 is picked first whenever it is allowed
         run_history(ctx, res, plates, k, strat, rng, lines, expect, meta, max_len=6, rounds=rng.choice([1, 2]), reuse=False, opts=opts)
+    # ---------- A1b. class score-ties (item 22): exact ties between allowed and non-allowed plates, library call and CLI, k = 1..3 -----
+    rng = ctx.subrng("ties")
+    witness = [{"rows": [1], "observed": False}, {"rows": [0], "observed": False}, {"rows": [0], "observed": False}, {"rows": [1], "observed": False}]
+    ti = 0
+    for k in (1, 2, 3):
+        for mode in TIE_MODES:
+            for store in ("first", "last", None):
+                for use_cli in ((False, True) if (store != None or mode == "size") else (False,)):      # noqa: E711
+                    ti += 1
+                    if ti % 2 == 0 or k != 2:
+                        counts = [rng.choice([k, k + 1, 2 * k]) for _ in range(rng.randint(2, 4))]
+                        plates = gen_plates(rng, counts, shuffle=True)
+                        for p_ in plates:
+                            p_["rows"] = p_["rows"][:1]       # equal-size plates: SizeScorer ties
+                    else:
+                        plates = [dict(p_) for p_ in witness]      # samples b,a,a,b (k = 2): plate 0 first, then only plate 3 is allowed
+                    opts = {"ties": {"mode": mode, "store": store}, "cli": use_cli, "verbose": ti % 5 == 0}
+                    run_history(ctx, res, plates, k, "lowest", rng, lines if not use_cli else None, expect, meta, max_len=2 * k + 2, rounds=1, reuse=False, opts=opts)
+                    res.count("ties.%s.%s" % (mode, "cli" if use_cli else "library"))
     # ---------- A2. class int-width: plate ids above 127 / 255 / 256 (264 plates, 6 samples x 44), two rounds --------------------
     rng = ctx.subrng("wide")
     for k in (2, 3):
